@@ -7,7 +7,8 @@ Requests (one per line, s-expressions; strings are hex-encoded UTF-8, `-` for th
 
 * `def SCHEMA` — selects the type of the case; answer `ok x=B` with `B` = `JsonExpressible`.
 * `enc V VALUE` — `mapEncode` with validation `V`; answer `R vx=B` where `B` = `ValExpressible` and
-  `R` = `ok JSON` | `err` | `panic` | `illtyped`.  Objects are printed in the order the model emits
+  `R` = `ok JSON` | `err` | `panic` | `illtyped` (`fail` for both `err` and `panic` when the type contains
+  a Go map: which entry fails first depends on the iteration order).  Objects are printed in the order the model emits
   them unless the type contains a Go map, in which case every object is printed with its members
   sorted by key (the harness does the same to the output of `JSONEncode`).
 * `ftab (W TEXT BITS)*` — texts occurring in the next document that Go's `strconv.ParseFloat(_, W)`
@@ -262,8 +263,9 @@ def stepLine (s : PSt) (toks : List String) : PSt × String :=
         let vx := b01 (valOk fc t val)
         let r := match mapEncode fc o t val with
           | .ok j => "ok " ++ showJson t.hasMap j
-          | .error .err => "err"
-          | .error .panic => "panic"
+          -- with a Go map in the type the first failing entry depends on the iteration order
+          | .error .err => if t.hasMap then "fail" else "err"
+          | .error .panic => if t.hasMap then "fail" else "panic"
           | .error .illTyped => "illtyped"
         ({ s with ftab := tab }, s!"{r} vx={vx}")
       | none => (s, "bad-value")
